@@ -68,7 +68,8 @@ check("C02", "model_checking",
       "TLA+ spec (phase switch) checked by TLC + replay against torch.optim + TLC trace validation", "DESIGN.md §5 C02")
 check("C03", "model_checking",
       "Kind=soap in ShampooStep: basis refresh schedule with per-factor failures, BasisUse (rotate iff every basis exists) checked by TLC; "
-      "replays check every stored basis at every refresh (orthonormal, diagonalising / QR update, ordering, written only on schedule) and "
+      "replays check every stored basis at every refresh (orthonormal; eigh: diagonalises the stored factor; QR: equals the k-iteration, "
+      "tolerance-controlled orthogonal-iteration update of the previous basis; ordering; written only on schedule) and "
       "the rotated-Adam recurrences against the float64 reference given the stored bases; dtype pairings validated by TLC.",
       _OPT_NOTE, "TLA+ spec model-checked by TLC + behaviour replay with basis-validity checks + TLC trace validation", "DESIGN.md §5 C03")
 check("C04", "model_checking",
@@ -81,13 +82,15 @@ check("C13", "model_checking",
       "The failure mechanism is modelled exactly as coded next to a ghost run-length; TLC checks RaiseIffRun, NoParamChangeOnRaise, "
       "KeepPreviousOnFail over every outcome script x mask history x tolerance in bounds; replays inject scripted outcomes at the matrix "
       "routines (keyed by the factor they are called for) and compare exception class, kept roots (bitwise), untouched parameters and "
-      "finiteness of stored roots; traces validated by TLC.",
+      "finiteness of stored roots in their stored dtype (16-bit parameters, float32 parameters with float64 factors and tiny epsilon); injected "
+      "failures rotate through ten exception classes; traces validated by TLC.",
       _OPT_NOTE, "TLA+ spec model-checked by TLC (fault enumeration) + fault-injection replay + TLC trace validation", "DESIGN.md §5 C13")
 
 check("C09", "model_checking",
       "spec/ShampooResume is a twin run: an uninterrupted copy and a copy whose durable state is saved and loaded into a fresh optimizer "
       "(every volatile variable reset) at an arbitrary point; TLC checks ResumeEquivalence for every mask history, hyper schedule and stop "
-      "point in bounds. Replays do the real save -> bytes -> fresh optimizer -> load -> continue and compare every tensor bitwise with the "
+      "point in bounds, any number of generations. Replays do the real save -> bytes -> fresh optimizer -> load -> continue (half of them once "
+      "more, half-way) at EVERY stop point and compare every tensor bitwise with the "
       "uninterrupted run; mutated checkpoints are compared with the spec's LoadOutcome table (evaluated by TLC).",
       "Serial layout; fault-free outcomes (failure counters are deliberately not checkpointed). " + _OPT_NOTE,
       "TLA+ twin-run spec model-checked by TLC + real save/load replay (bitwise) + spec-as-oracle load-outcome table", "DESIGN.md §5 C09")
